@@ -1,6 +1,7 @@
 //! C09 (DESIGN §5): the validity window under a simulated wall clock with per-node skew,
 //! jumps and wallet holding times from seconds to decades.
 
+use crate::faults::{self, Fault, Reser, SigEnc};
 use crate::gen::{self, GenCfg, Strat};
 use crate::msg::IssuerSpec;
 use crate::msg_gen::{self, clock_base, rand_fmt, Tier};
@@ -46,8 +47,15 @@ pub enum TEvent {
     JumpHolder(i64),
     /// the holder makes a (new) presentation
     Present { selection: Map<String, Value>, kb: bool },
-    /// the verifier checks the latest presentation
-    Verify { fmt: Fmt, session: bool },
+    /// the verifier checks the latest presentation; `faults` tamper with it on the way (a
+    /// tampered credential outside its window must be rejected all the same; for a tampered one
+    /// inside the window nothing is asserted)
+    Verify {
+        fmt: Fmt,
+        session: bool,
+        #[serde(default)]
+        faults: Vec<Fault>,
+    },
 }
 
 #[derive(Clone, Debug, Serialize, Deserialize, PartialEq)]
@@ -80,6 +88,22 @@ const Y: i64 = 365 * 86400;
 fn offset(rng: &mut Rng) -> i64 {
     // 121 s .. 10 years, log-uniform
     rng.log_uniform(121, 10 * Y as u64) as i64
+}
+
+/// What may happen to a presentation between wallet and verifier (most often nothing).
+fn way_faults(rng: &mut Rng) -> Vec<Fault> {
+    if !rng.chance(1, 6) {
+        return Vec::new();
+    }
+    vec![match rng.usize(8) {
+        0 | 1 => Fault::SigReencode(*rng.pick(&[SigEnc::Der, SigEnc::DerPadded, SigEnc::ZeroPadded, SigEnc::StdBase64])),
+        2 => Fault::DropDisclosure(rng.usize(8)),
+        3 => Fault::DupDisclosure { i: rng.usize(8), at: rng.usize(8) },
+        4 => Fault::Reserialize { i: rng.usize(8), mode: rng.pick(&[Reser::Whitespace, Reser::Padding, Reser::TrailingData(0)]).clone() },
+        5 => Fault::StripKb,
+        6 => Fault::GarbageDisclosure { text: rng.pick(&["", "e30", "W10"]).to_string(), at: rng.usize(8) },
+        _ => Fault::ReverseDisclosures,
+    }]
 }
 
 pub fn gen_c09(rng: &mut Rng, tier: Tier) -> Result<Value, serde_json::Error> {
@@ -136,7 +160,7 @@ pub fn gen_c09(rng: &mut Rng, tier: Tier) -> Result<Value, serde_json::Error> {
     let view = Value::Object(body.clone());
     let mut events = Vec::new();
     events.push(TEvent::Present { selection: gen::gen_selection(rng, &view, 800), kb: holder_key.is_some() && rng.bool() });
-    events.push(TEvent::Verify { fmt: rand_fmt(rng), session: rng.bool() });
+    events.push(TEvent::Verify { fmt: rand_fmt(rng), session: rng.bool(), faults: way_faults(rng) });
     for h in holds {
         events.push(TEvent::Hold(h));
         match rng.usize(10) {
@@ -145,7 +169,7 @@ pub fn gen_c09(rng: &mut Rng, tier: Tier) -> Result<Value, serde_json::Error> {
             2 | 3 => events.push(TEvent::Present { selection: gen::gen_selection(rng, &view, 700), kb: holder_key.is_some() && rng.bool() }),
             _ => {}
         }
-        events.push(TEvent::Verify { fmt: rand_fmt(rng), session: rng.bool() });
+        events.push(TEvent::Verify { fmt: rand_fmt(rng), session: rng.bool(), faults: way_faults(rng) });
     }
     let s = TimelineScn {
         kind: "timeline".into(),
@@ -337,8 +361,15 @@ pub fn execute(scn_v: &Value) -> RunReport {
                     rep.count("presentations_refused");
                 }
             }
-            TEvent::Verify { fmt, session } => {
-                let Some((m, has_kb)) = current.clone() else { continue };
+            TEvent::Verify { fmt, session, faults: way } => {
+                let Some((mut m, has_kb)) = current.clone() else { continue };
+                let mut tampered = false;
+                for f in way {
+                    if faults::apply(f, &mut m, &[], &mut w, t0) {
+                        tampered = true;
+                        rep.count(&format!("fault.{}", f.kind()));
+                    }
+                }
                 let Some(wire) = m.serialize(*fmt) else { continue };
                 let session = if *session && has_kb { Some((Some(sess.0.clone()), Some(sess.1.clone()))) } else { None };
                 let now_v = seams::clock_s() + v_skew;
@@ -378,6 +409,8 @@ pub fn execute(scn_v: &Value) -> RunReport {
                         let why = if exp_state != "exp_ok" && exp_state != "exp_band" { exp_state } else { nbf_state };
                         viol = Some(("must-reject".into(), format!("c09:accepted:{}", why), json!({"why": why, "exp": claims.get("exp"), "nbf": nbf_num, "verifier_local_time": tv, "format": fmt.name(), "kb": session.is_some()})));
                     }
+                } else if tampered {
+                    rep.count("oracle.c09.unasserted_tampered_in_window");
                 } else if exp_state == "exp_ok" && nbf_state != "nbf_band" {
                     // in window: not rejected for temporal reasons — differential against the same
                     // message at a canonical in-window instant
